@@ -333,6 +333,7 @@ func TestC20(t *testing.T) {
 		}
 	}
 
+	c20DialTimeoutStream(t, rep, rng.Fork(), env)
 	if rep.Failed() {
 		t.Fail()
 	}
